@@ -114,7 +114,9 @@ P = {
          'contexts incl. a malformed stream (cycles, dangling, duplicates) and a conflict stream, full task description or error kind, real '
          'code vs model vs executable reference; closure queries for all pairs; every second spec also in name mode against BuildNM.build; module wildcards '
          '(`mod.*`) and partial wildcards over class names (`mod.T*`, `mod.*T*`) in tasks and excluded_tasks; finding K8 (a by-name input that starts with the '
-         'declaring namespace is read as already qualified: k8_same_namespace_fails / k8_other_namespace_builds) with its witness on model and code.',
+         'declaring namespace is read as already qualified: k8_same_namespace_fails / k8_other_namespace_builds) with its witness on model and code; the wildcard matcher '
+         'itself is in the model (Names.globPrefix / globSelect: globPrefix_literal, globPrefix_lit_star, globPrefix_star_cons, globSelect_sublist) and compared with '
+         'get_classes_by_import_string on generated modules; an input declared by class is that class (byclass_homonym_is_absent, repair F18).',
     note='final edges of chains in which an object is shared from another mount or chain are characterised (chain_final_inputs) but acyclicity is shown '
          'for first-pass edges and own-object chains; the model recurses with fuel (Python: RecursionError); patterns restricted to literal / literal.*; networkx replaced by own reachability',
     technique='Lean 4 proof (per-step laws of the builder, reuse of C10/C07 theorems) + differential correspondence with an executable reference',
@@ -139,7 +141,7 @@ P = {
          'created_tasks_registry_independent, multichain_member_eq_standalone: simulation up to object identity, by induction on the recursion fuel); '
          'name mode (BuildNM.buildMulti, registry keyed by (task name, repr_name_without_namespace)): every task of every member is declared by a config of that member and its object was made '
          'by a member config with the same repr_name_without_namespace, whose name is its key (nm_multichain_objects); if such configs have equal names every member task has the key of its own '
-         'declaring config (nm_multichain_member_keys; nm_multichain_member_keys_clean discharges the name hypothesis for configs whose paths and part names carry no `:`, paths no `#`, namespaces no trailing `:` — clean_name_determined, reprNameNoNs_clean, last_split); a second member config with the same name is refused (dupChain, both modes); '
+         'declaring config (nm_multichain_member_keys; nm_multichain_member_keys_clean discharges the name hypothesis for configs whose paths and part names carry no `:`, paths no `#`, namespaces no trailing `:` — clean_name_determined, reprNameNoNs_clean, last_split); a second member config with the same name is refused (dupChain, both modes) and a built MultiChain files its members under pairwise different names (multi_names_distinct, nm_multi_names_distinct); '
          'MultiChain.force = Chain.force on every member (multichain_force_fans_out); finding K6 is proved on its witness in the model '
          '(every member config builds standalone, the MultiChain of the two fails). Correspondence: lists of 2-5 configs built as MultiChain and '
          'standalone on the real code vs the model (tasks, parameters, inputs, keys, object identity matrix across chains, incl. the mutation '
